@@ -50,6 +50,8 @@ class Contract:
         self.leaf_methods = g("leaf_methods", [])  # methods of a transformer modelled as the abstract leaf
         self.ghost = g("ghost", {})              # extra spec variables: name -> descriptor
         self.ghost_effect = g("ghost_effect", None)   # {"counter": +n}: definitional effect on a ghost counter at every call
+        self.ghost_effect_on_return = g("ghost_effect_on_return", None)   # the same, only for calls that return normally
+        self.raises_only_cases = g("raises_only_cases", ())   # cases that legitimately never return (exempt from the vacuity guard)
         self.replay = g("replay", None)          # name of the leaf-world builder (pyvc/leafharness.py) used to replay counterexamples
         self.doc = (spec.__doc__ or "").strip()
         self.defaults = g("defaults", {})
